@@ -535,4 +535,13 @@ Section Model.
 
   Definition conv_keys (cells : list (Z * cell)) : list Z :=
     map fst (filter (fun kc => converted (snd kc)) cells).
+
+  (* writeT4Geometry on a deck without FILL: a VOLU line for every converted
+     cell unless its key is in the skip list *)
+  Definition written_ids (cells : list (Z * cell)) (skipped : list Z) : list Z :=
+    filter (fun k => negb (existsb (Z.eqb k) skipped)) (conv_keys cells).
+
+  (* main.py: the NOTE with the skip list is printed iff the list is not empty *)
+  Definition note (skipped : list Z) : option (list Z) :=
+    match skipped with [] => None | _ => Some skipped end.
 End Model.
